@@ -55,15 +55,18 @@ func c20Reference(path string) (map[string]string, error) {
 	if exe == "" {
 		exe, _ = os.Executable()
 	}
-	outb, err := exec.Command(exe, "worker", "c20ref", path).Output()
-	if err != nil {
-		return nil, err
-	}
+	outb, runErr := exec.Command(exe, "worker", "c20ref", path).Output()
 	m := map[string]string{}
 	lines := strings.Split(strings.TrimSpace(string(outb)), "\n")
 	if err := json.Unmarshal([]byte(lines[len(lines)-1]), &m); err != nil {
+		if runErr != nil {
+			return nil, runErr
+		}
 		return nil, err
 	}
+	// a complete reference with a non-zero exit is the race detector's exit code (66): the reference process
+	// runs every operation alone on one goroutine, so its reports (read from the shared log at the end of the
+	// check) are races inside a single handle's own operations
 	if len(m) == 0 {
 		return nil, fmt.Errorf("empty reference")
 	}
